@@ -136,8 +136,13 @@ var c15Srcs = map[string]string{
 	"sql-backslash-literal": "add_key(q, \"select * from t where p = 'C:\\\\'\")\nsql_cover(q)\np(q)\n",
 	"sql-backslash-escape":  "add_key(q, \"select * from t where p = 'it\\\\'s' and a = 1\")\nsql_cover(q)\np(q)\n",
 	"sql-backslash-both":    "add_key(q, \"SELECT 'a\\\\' , b -- '\")\nsql_cover(q)\nadd_key(q2, \"select 1 from t where a = 'b'\")\nsql_cover(q2)\np(q, q2)\n",
-	"lib":                   "add_key(from_lib, \"lib\")\nb = 2\n",
-	"badrun":                "add_key(in_bad, 1)\nboom()\n",
+	// one zone under several spellings: the canonical name, the offset that maps to it, wrong letter case (unknown to a case-sensitive zone database)
+	"zone-canonical": "add_key(ts, \"2021-03-03 01:06:07\")\ndefault_time(ts, \"Pacific/Kiritimati\")\np(get_key(ts))\n",
+	"zone-offset":    "add_key(ts, \"2021-03-03 01:06:07\")\ndefault_time(ts, \"+14\")\np(get_key(ts))\n",
+	"zone-miscased":  "add_key(ts, \"2021-03-03 01:06:07\")\ndefault_time(ts, \"pacific/kiritimati\")\np(get_key(ts), get_key(pl_msg))\n",
+	"zone-upper":     "add_key(ts, \"2021-03-03 01:06:07\")\ndefault_time(ts, \"ASIA/TOKYO\")\nadd_key(ts4, \"2021-03-03 01:06:07\")\ndefault_time(ts4, \"asia/Tokyo\")\np(get_key(ts), get_key(ts4))\n",
+	"lib":            "add_key(from_lib, \"lib\")\nb = 2\n",
+	"badrun":         "add_key(in_bad, 1)\nboom()\n",
 }
 
 var c15Invalid = []string{"a b", "x = 0x", "-1e", "for a in 1e {}", "x = \"unterminated", "x = 'a\\q'", "if { }", "x = [1, 2", "))", "x = 1 / 0", "f(", "x = \"\"\"abc", "`raw", "a = \xff\xfe", "x = 1 +", "for ;; ", "{", "x = a[1:2:3:4]", "else {}", "x = 99999999999999999999999e9999"}
@@ -238,7 +243,7 @@ func c15Pool(seed int64) []c15Op {
 	var ops []c15Op
 	for _, name := range []string{"ok-simple", "ok-grok", "ok-loop", "ok-containers", "fail-mid-loop", "fail-type", "exit-early", "use-ok", "use-fail",
 		"void-after-val", "regs-full", "strfmt-print", "time", "xml-sql", "json", "rename-tag", "fail-nested-vars", "fail-in-use-branch", "reader", "reader-use",
-		"sql-backslash-literal", "sql-backslash-escape", "sql-backslash-both", "sql-backslash-both", "nested-literals", "nested-literals", "nested-literals-fail", "rename-onto-field", "rename-onto-tag", "rename-tag-onto-field", "rename-chain", "many-keys", "many-keys",
+		"zone-canonical", "zone-offset", "zone-miscased", "zone-miscased", "zone-upper", "sql-backslash-literal", "sql-backslash-escape", "sql-backslash-both", "sql-backslash-both", "nested-literals", "nested-literals", "nested-literals-fail", "rename-onto-field", "rename-onto-tag", "rename-tag-onto-field", "rename-chain", "many-keys", "many-keys",
 		"grok-alias-digits", "grok-alias-letters", "grok-alias-top", "grok-alias-loop", "grok-alias-inner", "grok-alias-shadow", "grok-global-only"} {
 		name := name
 		ops = append(ops, c15Op{"run:" + name, func(st *c15State) string { return c15RunV1(st, name, &drive.RunState{Budget: 20000}) }})
